@@ -514,7 +514,37 @@ func sameVal(a, b ssa.Value) bool {
 	if a == b {
 		return true
 	}
-	return Expr(a) == Expr(b) && !strings.Contains(Expr(a), "(") // pure field/param paths only
+	if Expr(a) == Expr(b) && !strings.Contains(Expr(a), "(") { // pure field/param paths
+		return true
+	}
+	return samePath(a, b, 0)
+}
+
+// samePath: two loads through the same chain of field and index selections from one SSA value, with identical index
+// values (go/ssa does not share the two loads of `e[i].f` and `e[i]`).
+func samePath(a, b ssa.Value, d int) bool {
+	a, b = stripConv(a), stripConv(b)
+	if a == b {
+		return true
+	}
+	if d > 6 {
+		return false
+	}
+	switch x := a.(type) {
+	case *ssa.UnOp:
+		y, ok := b.(*ssa.UnOp)
+		return ok && x.Op == token.MUL && y.Op == token.MUL && samePath(x.X, y.X, d+1)
+	case *ssa.IndexAddr:
+		y, ok := b.(*ssa.IndexAddr)
+		return ok && x.Index == y.Index && samePath(x.X, y.X, d+1)
+	case *ssa.FieldAddr:
+		y, ok := b.(*ssa.FieldAddr)
+		return ok && x.Field == y.Field && samePath(x.X, y.X, d+1)
+	case *ssa.Field:
+		y, ok := b.(*ssa.Field)
+		return ok && x.Field == y.Field && samePath(x.X, y.X, d+1)
+	}
+	return false
 }
 
 // unspill undoes go/ssa's "defer-spilled returns": in a function with a
